@@ -191,6 +191,41 @@ class HTMLTranslator(html4css1.HTMLTranslator):
         node['backrefs'] = [ref if ref.startswith('rst-') else f'rst-{ref}' for ref in node['backrefs']]
         super().footnote_backrefs(node)
 
+    # The HTML that docutils' math2html writes for a formula is not escaped everywhere: the argument
+    # of \\text{}, \\mbox{} ... is copied verbatim and the literal parameters of \\color{}, \\href{} ...
+    # are pasted into attribute values. Only keep that HTML when it is made of the elements and
+    # attributes math2html itself uses; otherwise show the LaTeX source, escaped.
+    _MATH_TAGS = frozenset(('span', 'div', 'i', 'b', 'sub', 'sup', 'hr', 'a', 'br', 'tt', 'u',
+                            'big', 'small', 'table', 'tbody', 'tr', 'td'))
+    _MATH_ATTRS = frozenset(('class', 'style', 'href', 'name'))
+
+    @classmethod
+    def _is_math_html(cls, html: str) -> bool:
+        try:
+            todo = [html2stan(html)]
+        except Exception:
+            return False
+        while todo:
+            for child in todo.pop().children:
+                if isinstance(child, Tag):
+                    if child.tagName not in cls._MATH_TAGS or not cls._MATH_ATTRS.issuperset(child.attributes):
+                        return False
+                    href = str(child.attributes.get('href', '')).strip().lower()
+                    if href.startswith(('javascript:', 'data:', 'vbscript:')):
+                        return False
+                    todo.append(child)
+        return True
+
+    def visit_math(self, node: nodes.Node) -> None:
+        start = len(self.body)
+        try:
+            super().visit_math(node)
+        finally:
+            if not self._is_math_html(''.join(self.body[start:])):
+                tag = 'pre' if isinstance(node, nodes.math_block) else 'tt'
+                self.body[start:] = [self.starttag(node, tag, '', CLASS='math'),
+                                     self.encode(node.astext()), f'</{tag}>']
+
     def visit_doctest_block(self, node: nodes.Node) -> None:
         pysrc = node[0].astext()
         if node.get('codeblock'):
